@@ -24,6 +24,8 @@ TRUSTED = ["abstract HDF5 store (fsmodel): what is stored is what is read back; 
            "round trips; what the Polygon constructor (shapely: orientation, validity) makes of the stored vertices: bounded native run only",
            "h5py iterates the members of a group in name order (model)"]
 ASSUMPTIONS = ["arrays are opaque symbolic arrays: a round trip is 'the object read back is the object stored' (identity of the array term)",
+               "frames: the real writer (save_fixed_values / save_time_step) followed by the real frame reader (TDGLData.from_hdf5, load_state_data) over the abstract store, "
+               "symbolic array sizes, fixed or per-frame applied potential / epsilon: every field read back for frame f is what the f-th call was handed",
                "mesh_restore_equals_recompute is covered only by the bounded native run"]
 EXPLANATION = "round-trip contracts of the real to_hdf5/from_hdf5 pairs over an abstract store with symbolic contents; options incl. None; parameters via pickling (C16)"
 SOL = "tdgl.solution.solution"
@@ -342,6 +344,8 @@ def _bounded_quick():
 def units():
     return [Unit("Solution options/attrs save->load", SOL + ":Solution._save_to_hdf5_file / Solution.from_hdf5", run_options, props=["C14"], timeout=600),
             Unit("Solution solve_step", SOL + ":Solution.__init__ / load_tdgl_data", run_solve_step, props=["C14"], timeout=300),
+            Unit("save_time_step -> TDGLData.from_hdf5", "tdgl.solver.runner:DataHandler.save_fixed_values / save_time_step -> tdgl.solution.data:TDGLData.from_hdf5 / load_state_data",
+                 lambda m=None: __import__("checks.writer_common", fromlist=["x"]).run_frame_round_trip(m, prefixes=("C14.", "C05.")), props=["C14", "C05"], timeout=300),
             Unit("Layer.to_hdf5/from_hdf5", "tdgl.device.layer:Layer.to_hdf5 / from_hdf5", run_layer, props=["C14"], timeout=300),
             Unit("EdgeMesh/Mesh/DynamicsData to_hdf5/from_hdf5", "tdgl.finite_volume.edge_mesh:EdgeMesh, tdgl.finite_volume.mesh:Mesh, tdgl.solution.data:DynamicsData", run_meshes, props=["C14"], timeout=300),
             Unit("Device.to_hdf5/from_hdf5", "tdgl.device.device:Device.to_hdf5 / Device.from_hdf5",
@@ -489,6 +493,7 @@ MUTANTS = [
     dict(name="layer z0 stored as thickness", edits=[("tdgl.device.layer", "h5_group.attrs[\"z0\"] = self.z0", "h5_group.attrs[\"z0\"] = self.thickness")]),
     dict(name="edge mesh directions loaded from centers", edits=[("tdgl.finite_volume.edge_mesh", "directions=np.array(h5group[\"directions\"]),", "directions=np.array(h5group[\"centers\"]),")]),
     dict(name="mesh areas not stored", edits=[("tdgl.finite_volume.mesh", "            h5group[\"areas\"] = self.areas\n", "")]),
+] + __import__("checks.writer_common", fromlist=["x"]).MUTANTS_FRAME + [
     dict(name="composite pickle drops slots", edits=[(P_, "        for name in (\"time_dependent\", \"_cache\", \"_use_cache\"):\n            if hasattr(self, name):\n                state[name] = getattr(self, name)\n        return state", "        return state")]),
 ]
 
